@@ -144,6 +144,15 @@ class _Inner(torch.nn.Module):
         self.w = w
 
 
+class _Inner2(torch.nn.Module):
+    """two registered Parameters, w first; only w is used (and declared) by the enclosing EditableModule"""
+
+    def __init__(self, w):
+        super().__init__()
+        self.w = w
+        self.v = torch.nn.Parameter(torch.tensor([1.5, -0.5], dtype=torch.float64))
+
+
 class Rep:
     """one representation of the function `fname` holding the leaves a and b (p is always an explicit parameter).
 
@@ -197,7 +206,7 @@ def build(kind, fname, extra, rg, probe, vals=None):
     base = kind[4:] if kind.startswith("sib:") else kind
 
     nnk = ("nn_flat", "nn_nested", "nn_tied", "nn_method", "nn_call", "nn_extra")
-    need_param = {"a": base in nnk + ("em_nn", "multi_nn_em", "multi3"), "b": base in nnk + ("multi_em_nn", "both", "both_rev")}
+    need_param = {"a": base in nnk + ("em_nn", "em_nn2", "multi_nn_em", "multi3"), "b": base in nnk + ("multi_em_nn", "both", "both_rev")}
     a = _mk_leaf(vals["a"], "a" in rg, need_param["a"])
     b = _mk_leaf(vals["b"], "b" in rg, need_param["b"])
     p = _mk_leaf(vals["p"], "p" in rg, False)
@@ -660,10 +669,12 @@ def build(kind, fname, extra, rg, probe, vals=None):
         rep.holders = [m]
         rep.slots = [(m, "dct[1]", 0), (m, "dct['a']", 1)]
         rep.nobj = 2
-    elif base == "em_nn":
+    elif base in ("em_nn", "em_nn2"):
         class EMNN(EditableModule):
             def __init__(self):
-                self.mod = _Inner(a)     # an nn.Module held by an EditableModule
+                # an nn.Module held by an EditableModule (em_nn2: the inner module has a second registered
+                # Parameter that the EditableModule does not declare)
+                self.mod = _Inner(a) if base == "em_nn" else _Inner2(a)
                 self.b = b
 
             def fn(self, *args):
